@@ -64,6 +64,8 @@ fn cmd_run(args: &[String]) -> i32 {
     let mut samples: Vec<serde_json::Value> = Vec::new();
     let mut n_viol: u64 = 0;
     let mut slowest: (u64, u64) = (0, 0);
+    let fp_log = args.iter().any(|a| a == "--fp-log");
+    let mut run_fp: u64 = 0;
     let (p0, e0, _) = simalloc::fired_totals();
     for idx in from..to {
         {
@@ -76,6 +78,7 @@ fn cmd_run(args: &[String]) -> i32 {
         let mut sink = |c: &Case, res: CaseResult| {
             evaluations += 1;
             stats.merge(&res.stats);
+            run_fp = rng::mix2(run_fp, res.fp ^ res.violations.len() as u64 ^ ((res.stats.steps) << 32));
             let mine: Vec<&Violation> = res.violations.iter().filter(|v| v.prop == prop).collect();
             if !mine.is_empty() {
                 n_viol += 1;
@@ -113,6 +116,11 @@ fn cmd_run(args: &[String]) -> i32 {
             }
         };
         props::run_index(prop, rs, thorough, &ctx, &mut sink);
+        if fp_log {
+            let mut o = out.lock();
+            let _ = writeln!(o, "FP {} {:016x}", idx, run_fp);
+        }
+        run_fp = 0;
         let dt = t_run.elapsed().as_millis() as u64;
         if dt > slowest.0 {
             slowest = (dt, idx);
